@@ -8,6 +8,7 @@ require (
 )
 
 require (
+	go.sia.tech/mux v1.5.3 // indirect
 	golang.org/x/sys v0.47.0 // indirect
 	lukechampine.com/frand v1.5.1 // indirect
 )
